@@ -836,10 +836,22 @@ def run_history(model, hist):
         st["dyn"] = I.call(z["DynTop"], [], {"t": 9.5, "part": {"n": 1.0, "a": [1.0], "b": [1.0, 2.0, 3.0]}, "_buffer": hw.buf("A")})
         st["zoo"] = z
 
+        held = {}
+
         def invariants(k, opn):
             for name in ("top", "mid2", "leaf3", "leafB", "holder", "holderB", "wrap", "dyn"):
                 for b in hw.mirror(st[name], name):
                     found.append((k, opn, b))
+                # relocation: only `move` takes an object the user holds to another place; after any other operation
+                # every held object still views the bytes it viewed (seeded C08-f re-dressed the user's own handle of
+                # the OLD referent from the new one when plain data were assigned to a reference field)
+                xo_ = st[name].attrs.get("_xobject")
+                if isinstance(xo_, Obj) and "_buffer" in xo_.attrs:
+                    now = hw.loc(xo_)
+                    was = held.get(name)
+                    if was is not None and was[2] is st[name] and (now[0] is not was[0] or now[1] != was[1]) and not opn.startswith("move"):
+                        found.append((k, opn, f"the object `{name}` the user holds viewed {hw.locs(was[:2])} before the operation and views {hw.locs(now)} after it: only move() relocates an object; reads and writes through this handle now reach another object's bytes"))
+                    held[name] = (now[0], now[1], st[name])
             for j, c in enumerate(st["old"]):
                 for b in hw.mirror(c, f"copy#{j}"):
                     found.append((k, opn, b))
